@@ -16,13 +16,14 @@ func init() { register("C15", "other", checkC15) }
 
 func checkC15(w *World, r *Result) {
 	r.Explanation = "Decides structural necessary conditions on generator/go/randdata: TPL-C15f in every instantiation of the container templates each element is produced by the element generator: fixed arrays are filled by a loop over the whole array, slices by a loop over the whole freshly made slice, maps by l insertions of generated key and value; pointers return the address of a generated value (never nil); AGR-C15u the union template lists one generated value per member (lock-step append) and draws the index below len(Members); AGR-C15e the table-based enum template draws an index below len(choix) and returns choix[i], the choices being exactly the exported constants (AGR-C10b, TPL-3: no empty slot); AGR-C15s the struct loop skips exactly unexported fields and fields tagged gomacro-data:\"ignore\" before emitting anything for them, and assigns every other field from the generator named functionID(field type) (AGR-C01a); TPL-C15a termination: some cycle-capable constructor (slice, map, pointer, union) must be able to stop the recursion (zero length, or a conditional call) - today none can (known finding); TPL-1 templates parse. Does not decide: variation across calls, well-formedness of values as a run-time fact, the JSON round trip."
-	r.Rules = []string{"TPL-C15f", "AGR-C15u", "AGR-C15e", "AGR-C15s", "AGR-C10b", "AGR-C01a", "TPL-C15a", "TPL-1", "TPL-3", "AGR-C09c", "AGR-C11f", "GEN-ID", "ALIAS-APPEND", "PRINTF"}
+	r.Rules = []string{"TPL-C15f", "AGR-C15u", "AGR-C15e", "AGR-C15s", "AGR-C10b", "AGR-C01a", "TPL-C15a", "TPL-1", "TPL-3", "AGR-C09c", "AGR-C11f", "GEN-ID", "AGR-C15d", "ALIAS-APPEND", "PRINTF"}
 	printfRule(w, r, "generator/go/randdata")
 	aliasAppendRule(w, r, func(rel string) bool { return rel == "analysis" || rel == "generator/go/randdata" })
 	// the gomacro-data:"ignore" tag the struct loop reads is the field's own, also for fields promoted from an embedded struct
 	checkFlatten(w, r)
 	// the union table the union template draws from (rules shared with C11), names of generic instantiations
 	checkMemberFilter(w, r)
+	checkDeclaredOnEveryPath(w, r)
 	genIDRule(w, r, "generator/go/randdata")
 	decls := extractDecls(w, "generator/go/randdata")
 	byFn := map[string][]*tplDecl{}
@@ -374,4 +375,65 @@ func checkRandStruct(w *World, r *Result) {
 		return true
 	})
 	r.cond(okAssign, "AGR-C15s", fi.Name, "s.<field> = rand<functionID(field type)>()", w.Pos(fl.rs.Pos()), "each kept field is assigned from the generator of its own type", "a kept field is not assigned from the generator named functionID(field.Type)")
+}
+
+// checkDeclaredOnEveryPath (AGR-C15d): callers name the generator of a type `rand<functionID(type)>()` without
+// asking whether it exists, so every code* function of randdata must return the declaration of its function on
+// every path: a `return nil` (an "empty struct needs no generator" shortcut) leaves those calls undefined.
+func checkDeclaredOnEveryPath(w *World, r *Result) {
+	n := 0
+	for _, fi := range sortedFuncs(w) {
+		if w.Rel(fi.Obj.Pkg()) != "generator/go/randdata" || fi.Decl.Body == nil || !strings.HasPrefix(fi.Obj.Name(), "codeFor") {
+			continue
+		}
+		sig := fi.Obj.Type().(*types.Signature)
+		if sig.Results().Len() != 1 {
+			continue
+		}
+		if _, isSlice := sig.Results().At(0).Type().Underlying().(*types.Slice); !isSlice {
+			continue // returns one Declaration by value: cannot be empty
+		}
+		info := fi.Pkg.TypesInfo
+		ast.Inspect(fi.Decl.Body, func(x ast.Node) bool {
+			if _, ok := x.(*ast.FuncLit); ok {
+				return false
+			}
+			ret, ok := x.(*ast.ReturnStmt)
+			if !ok {
+				return true
+			}
+			n++
+			empty := false
+			if len(ret.Results) == 1 {
+				if tv := info.Types[ret.Results[0]]; tv.IsNil() {
+					empty = true
+				}
+				if lit, ok := ast.Unparen(ret.Results[0]).(*ast.CompositeLit); ok && len(lit.Elts) == 0 {
+					empty = true
+				}
+			}
+			// a bare return of the named result before anything was appended to it
+			if len(ret.Results) == 0 && sig.Results().At(0).Name() != "" {
+				appended := false
+				ast.Inspect(fi.Decl.Body, func(y ast.Node) bool {
+					if as, ok := y.(*ast.AssignStmt); ok && as.Pos() < ret.Pos() {
+						for _, l := range as.Lhs {
+							if id := identOf(l); id != nil && id.Name == sig.Results().At(0).Name() {
+								appended = true
+							}
+						}
+					}
+					return true
+				})
+				empty = !appended
+			}
+			r.cond(!empty, "AGR-C15d", fi.Name, "return at "+w.Pos(ret.Pos()), w.Pos(ret.Pos()),
+				"returns the collected declarations",
+				"this path returns no declaration: the type's generator is never defined, while every user of the type still calls rand<functionID>() (undefined identifier in the generated file)")
+			return true
+		})
+	}
+	if n < 5 {
+		Undecided("AGR-C15d: only %d returns found in the code* functions of randdata", n)
+	}
 }
